@@ -281,12 +281,13 @@ def plan(tier, seed):
         nparts = 3 if tier == 'quick' else 8
         for part in range(nparts):
             specs.append({'kind': 'one', 'scn': scn, 'part': part, 'parts': nparts, 'stride_out': 5 if tier == 'quick' else 1})
-        if tier != 'quick':
+        heavy = scn.get('via') == 'detached'      # (its schedules are about ten times as long: join, leave and join again)
+        if tier != 'quick' and not heavy:
             for part in range(8):
                 specs.append({'kind': 'two', 'scn': scn, 'part': part, 'parts': 8})
         nrand = 2 if tier == 'quick' else 8
         for r in range(nrand):
-            specs.append({'kind': 'random', 'scn': scn, 'seed': seed * 10007 + r, 'n': 40 if tier == 'quick' else 300})
+            specs.append({'kind': 'random', 'scn': scn, 'seed': seed * 10007 + r, 'n': (40 if tier == 'quick' else 300) // (5 if heavy else 1)})
     if tier != 'quick':
         for r in range(6):
             specs.append({'kind': 'stress', 'seed': seed * 31 + r, 'mechs': ['fallback', 'Select', 'Poll', 'EPoll'], 'firers': 4 + r % 5, 'events': 500,
@@ -463,6 +464,8 @@ def run_batch(spec):
         cands += [(p, BURSTS if spec['stride_out'] == 1 else [1, 3, 8, 21, INF]) for p in range(ws, fine, 1 if spec['stride_out'] == 1 else 4)]
         cands += [(p, BURSTS if spec['stride_out'] == 1 else [1, 5, INF]) for p in range(max(first_tick, 1), ws, 1 if spec['stride_out'] == 1 else 10)]
         cands = [c for i, c in enumerate(sorted(cands)) if i % spec['parts'] == spec['part']]
+        if scn.get('via') == 'detached':
+            cands = [(p, [1, 8, INF]) for p, _b in cands[::4]]
 
         def plans():
             for p, bursts in cands:
